@@ -50,8 +50,9 @@ IsNode(i) == i \in 1..NN(tid)
 Consumers(i) == {c \in 1..NN(tid) : \E k \in 1..Len(Node(c).ins) : Node(c).ins[k] = i}
 FbReaders(i) == {f \in 1..NN(tid) : Node(f).kind = "fb" /\ Node(f).bind = i}
 
+NoVal == -999999   \* "no scripted value at this time" (script values are small integers)
 ScriptVal(i, t) == LET js == {j \in 1..Len(Node(i).script) : Node(i).script[j][1] = t}
-                   IN  IF js = {} THEN -1 ELSE Node(i).script[CHOOSE j \in js : TRUE][2]
+                   IN  IF js = {} THEN NoVal ELSE Node(i).script[CHOOSE j \in js : TRUE][2]
 
 IdAt(s, g, n) == LET m == {x \in s.ids : x[1] = g /\ x[2] = n}
                  IN  IF m = {} THEN -1 ELSE (CHOOSE x \in m : TRUE)[3]
@@ -80,6 +81,8 @@ InitS(t) ==
       started|-> {},
       ids    |-> {},
       cyc    |-> {},
+      threw  |-> {},                     \* <<id, input value>> of captured exceptions thrown in this root cycle
+      errd   |-> {},                     \* ids whose error tick has been observed in this root cycle
       ended  |-> FALSE ]
 
 ----------------------------------------------------------------------------
@@ -112,6 +115,7 @@ OnCycle(e) ==
                 LET dl == {f \in 1..NN(tid) : S.fbq[f] # <<>> /\ S.fbq[f][1][1] = e.t}
                 IN Ok([S EXCEPT !.rnow = e.t, !.gnow[0] = e.t, !.gcyc[0] = e.t, !.evald[0] = {},
                              !.fired = {}, !.due = {}, !.stale = {}, !.cyc = @ \cup {e.t},
+                             !.threw = {}, !.errd = {},
                              !.lw  = [i \in DOMAIN @ |-> IF i \in dl THEN e.t ELSE @[i]],
                              !.lv  = [i \in DOMAIN @ |-> IF i \in dl THEN S.fbq[i][1][2] ELSE @[i]],
                              !.fbq = [i \in DOMAIN @ |-> IF i \in dl THEN Tail(@[i]) ELSE @[i]],
@@ -128,6 +132,8 @@ OnCycle(e) ==
               <<"C02.child_time_not_strictly_increasing", e.t > S.gcyc[e.g]>> >>, 1)
         IN IF why # "" THEN Fail(why)
            ELSE Ok([S EXCEPT !.gnow[e.g] = e.t, !.gcyc[e.g] = e.t, !.evald[e.g] = {}])
+
+Captured(i) == \E k \in 1..Len(P(tid).capt) : \E j \in 1..Len(P(tid).capt[k][2]) : P(tid).capt[k][2][j] = i
 
 ShouldFire(s, i, t) ==
     /\ Node(i).kind \notin SourceKinds
@@ -146,7 +152,9 @@ OnCycled(e) ==
               <<"C03.user_code_did_not_run_though_active_input_ticked",
                     \A i \in S.started : ShouldFire(S, i, t) => i \in S.fired>>,
               <<"C03.user_code_did_not_run_at_due_wakeup",
-                    \A i \in S.due : (i \in S.started /\ ReqValid(S, i)) => i \in S.fired>> >>, 1)
+                    \A i \in S.due : (i \in S.started /\ ReqValid(S, i)) => i \in S.fired>>,
+              <<"C15.captured_exception_without_error_tick_in_its_cycle",
+                    \A x \in S.threw : Captured(x[1]) => x[1] \in S.errd>> >>, 1)
         IN IF why # "" THEN Fail(why)
            ELSE Ok([S EXCEPT !.rnow = 0, !.last = t, !.gnow = [g \in Insts |-> 0]])
 
@@ -171,7 +179,7 @@ Expected(s, e) ==
         n == Node(i)
         iv  == [k \in 1..Len(n.ins) |-> IF s.lw[n.ins[k]] # 0 THEN s.lv[n.ins[k]] ELSE 0]
         iok == [k \in 1..Len(n.ins) |-> s.lw[n.ins[k]] # 0]
-    IN CASE n.kind = "src"   -> [w |-> ScriptVal(i, e.t) # -1, v |-> ScriptVal(i, e.t), s |-> s.nst[i]]
+    IN CASE n.kind = "src"   -> [w |-> ScriptVal(i, e.t) # NoVal, v |-> ScriptVal(i, e.t), s |-> s.nst[i]]
          [] n.kind = "timer" -> [w |-> TRUE, v |-> s.nst[i], s |-> s.nst[i] + 1]
          [] n.kind = "delay" -> [w |-> i \in s.due, v |-> s.nst[i],
                                  s |-> IF s.lw[n.ins[1]] = e.t THEN iv[1] ELSE s.nst[i]]
@@ -213,6 +221,7 @@ OnFn(e) ==
             IN IF (e.w = 1) # x.w \/ (x.w /\ e.out # x.v)
                THEN Fail("C03.output_is_not_the_function_of_the_inputs")
                ELSE LET s1 == [S EXCEPT !.fired = @ \cup {i}, !.nst[i] = x.s,
+                                        !.threw = IF threw THEN @ \cup {<<i, e.in[1].v>>} ELSE @,
                                         !.tagt[i] = IF n.kind = "delay" /\ i \in S.due /\ @ = t THEN 0 ELSE @]
                         s2 == IF x.w THEN [s1 EXCEPT !.lw[i] = t, !.lv[i] = x.v,
                                                      !.pend = @ \cup {<<f, t + 1>> : f \in FbReaders(i)},
@@ -238,6 +247,19 @@ OnReq(e) ==
                                   !.wd   = IF old # 0 /\ old # e.at THEN @ \cup {<<i, old>>} ELSE @,
                                   !.pend = IF old # 0 /\ old # e.at THEN @ \ {<<i, old>>} ELSE @])
 
+(* captured errors (C15): the error output of the capturing node / try_except ticked *)
+OnErr(e) ==
+    LET c   == {k \in 1..Len(P(tid).capt) : P(tid).capt[k][1] = e.id}
+        ths == IF c = {} THEN {} ELSE {P(tid).capt[CHOOSE k \in c : TRUE][2][j] : j \in 1..Len(P(tid).capt[CHOOSE k \in c : TRUE][2])}
+        hit == {x \in S.threw : x[1] \in ths /\ x[1] \notin S.errd}
+        why == FirstFail(<<
+          <<"C15.error_tick_outside_a_cycle", S.rnow # 0 /\ e.t = S.rnow>>,
+          <<"C15.error_tick_without_exception_in_this_cycle", hit # {}>>,
+          <<"C15.error_message_is_not_the_exception_message",
+                \E x \in hit : e.msg = "neg " \o ToString(x[2])>> >>, 1)
+    IN IF why # "" THEN Fail(why)
+       ELSE Ok([S EXCEPT !.errd = @ \cup {(CHOOSE x \in hit : e.msg = "neg " \o ToString(x[2]))[1]}])
+
 OnRet(e) ==
     LET why == FirstFail(<<
           <<"run_raised_an_exception", e.ok = 1>>,
@@ -254,6 +276,7 @@ Step(e) ==
       [] e.e = "nstarted" -> OnNstarted(e)
       [] e.e = "nstop"    -> OnNstop(e)
       [] e.e = "ret"      -> OnRet(e)
+      [] e.e = "err"      -> OnErr(e)
       [] OTHER            -> Ok(S)
 
 ----------------------------------------------------------------------------
